@@ -16,7 +16,7 @@ def _num(x):
     if isinstance(x, (int, float)):
         return float(x)
     if isinstance(x, dict):
-        return {k: _num(v) for k, v in x.items()}
+        return {(k if isinstance(k, str) else repr(k)): _num(v) for k, v in x.items()}  # (an explicit ID may be 0: JSON object keys are sorted as text)
     if isinstance(x, (list, tuple)):
         return [_num(v) for v in x]
     return x
@@ -734,6 +734,8 @@ def falsy_id_rebuild(col):
         b.append_input_task(a)
         c = BaseComponent("c", ID=ids[2])
         c.append_targeted_task(a)
+        d = BaseComponent("d", ID="dd")  # (a second part, for the task that is not the first of the workflow)
+        d.append_targeted_task(b)
         f = BaseFacility("f", ID=ids[3], workamount_skill_mean_map={"a": 1.0}, cost_per_time=1.0)
         wp = BaseWorkplace("wp", ID=ids[4], facility_list=[f])
         wp.append_targeted_task(a)
@@ -741,7 +743,7 @@ def falsy_id_rebuild(col):
         w1 = BaseWorker("w1", ID=ids[6], workamount_skill_mean_map={"b": 1.0}, cost_per_time=2.0)
         tm = BaseTeam("tm", ID=ids[7], worker_list=[w0, w1])
         tm.extend_targeted_task_list([a, b])
-        p = BaseProject(product=BaseProduct([c]), workflow=BaseWorkflow([a, b]), organization=BaseOrganization([tm], [wp]))
+        p = BaseProject(product=BaseProduct([c, d]), workflow=BaseWorkflow([a, b]), organization=BaseOrganization([tm], [wp]))
         if stop is not None:
             p.simulate(max_time=stop)
             return p
@@ -779,10 +781,16 @@ def falsy_id_rebuild(col):
                 finally:
                     os.unlink(path)
                 p1.simulate(max_time=20, initialize_state_info=False, initialize_log_info=False)
-                p2.simulate(max_time=20, initialize_state_info=False, initialize_log_info=False)
-                c1, c2 = jdump(S.adopt(p1)), jdump(S.adopt(p2))
+                c1 = jdump(S.adopt(p1))
             except Exception as e:
                 col.extra["falsy-id-continue-raised:%s" % type(e).__name__] += 1
+                continue
+            try:
+                p2.simulate(max_time=20, initialize_state_info=False, initialize_log_info=False)
+                c2 = jdump(S.adopt(p2))
+            except Exception as e:  # the original objects went on to the end, the copy rebuilt from their file does not
+                col.violation({"property": "C09", "sig": "C09:continuation-of-a-rebuilt-copy-raised-where-the-original-objects-went-on(an-ID-of-0-or-empty-string):%s" % type(e).__name__, "kind": "falsyid",
+                               "detail": {"ids": ids, "error": repr(e)}})
                 continue
             col.evaluations += 2
             col.checks["c09.falsy-ids-continued"] += 1
